@@ -106,7 +106,11 @@ CLenOutcome(ts) == IF IsNum(ts) THEN ValI(<<NumVal(ts)>>) ELSE AnyOut
 
 (* ------------------------------------------------------------------ entity-tag lists *)
 (* If-Match = "*" / #entity-tag ; entity-tag = [ "W/" ] DQUOTE *etagc DQUOTE   (RFC 9110 8.8.3, 13.1) *)
-QTagVal == ("\"a\"" :> "a") @@ ("\"b,c\"" :> "b,c") @@ ("\"\"" :> "") @@ ("\"W/x\"" :> "W/x")
+(* etagc = %x21 / %x23-7E / obs-text: a tag may carry bytes >= 0x80.  TLC strings stay ASCII, so such a
+   byte is spelled \u{hex} in the token (the harness puts the real latin-1 byte on the wire and spells
+   observed values the same way). *)
+QTagVal == ("\"a\"" :> "a") @@ ("\"b,c\"" :> "b,c") @@ ("\"\"" :> "") @@ ("\"W/x\"" :> "W/x") @@
+           ("\"caf\\u{e9}-1\"" :> "caf\\u{e9}-1") @@ ("\"\\u{fc}\\u{80}\"" :> "\\u{fc}\\u{80}")
 QTags   == DOMAIN QTagVal
 ETagTokens == QTags \cup {"W/", "w/", "*", ",", SP, "x", "\""}
 Tag(weak, q) == (IF weak THEN "W/" ELSE "") \o "\"" \o QTagVal[q] \o "\""     \* canonical spelling of one tag
